@@ -19,6 +19,7 @@ class Sim:
         self.runtime = bytearray(150)
         self.settings = bytearray(90)
         self.fail_next = 0          # number of following requests that fail with RequestFailedException
+        self.lose = set()           # absolute request ordinals (index in self.log) that get no answer
         self.salt = self.rng.randrange(65536)
 
     # ---- register file
@@ -51,9 +52,9 @@ class Sim:
         req = F.parse_req(raw)
         if req is None:
             self.log.append(dict(kind='?', raw=raw)); return ('fail',)
-        if self.fail_next > 0:
-            self.fail_next -= 1
-            self.log.append(dict(kind=req['kind'], fn=req.get('fn', req.get('type')), reg=req.get('reg'), raw=raw, lost=True))
+        if self.fail_next > 0 or len(self.log) in self.lose:
+            if self.fail_next > 0: self.fail_next -= 1
+            self.log.append(dict(kind=req['kind'], fn=req.get('fn', req.get('type')), reg=req.get('reg'), count=req.get('val'), raw=raw, lost=True))
             return ('fail',)
         if req['kind'] == 'aa55': return self.handle_aa55(req, raw)
         k, fn, reg = req['kind'], req['fn'], req['reg']
